@@ -805,11 +805,10 @@ func integer(sign int64, s string) (Integer, error) {
 }
 
 func float(sign float64, s string) (Float, error) {
-	bf, _, _ := big.ParseFloat(s, 10, 0, big.ToZero)
-	bf.Mul(big.NewFloat(sign), bf)
-
-	f, _ := bf.Float64()
-	return Float(f), nil
+	// A float number token is always a valid decimal literal. strconv.ParseFloat rounds it correctly to the nearest
+	// float64 (out of range values become ±Inf or 0 as before).
+	f, _ := strconv.ParseFloat(s, 64)
+	return Float(sign * f), nil
 }
 
 var (
